@@ -15,6 +15,8 @@ def check(chk, thorough=False):
     chk.run('C06.a', 'R-FLOW', 'the reassembly table is keyed by the first three identity components (source, creation time, sequence)', lambda ob: (c06a(tree, ob), c10b(tree, ob)), floor=5)
     chk.run('C06.b', 'R-ORDER', 're-injection and table deletion happen only once coverage equals [0,total); coverage only grows by the spliced range', lambda ob: c06b(tree, ob), floor=4)
     chk.run('C06.c', 'R-FLOW', 'buffer splice and coverage interval use the same bounds: the fragment own offset and offset + len(data)', lambda ob: c06c(tree, ob), floor=3)
+    chk.run('C06.h', 'R-ORDER', 'fragments are reassembled before the security steps look at the bundle: reassembly runs strictly before BIB / BCB verification in the receive chain (= C12.a)', lambda ob: __import__('sa.props.c12', fromlist=['c12a']).c12a(tree, ob), floor=4)
+    chk.run('C06.i', 'R-FRESH', 'each reassembly starts from an empty bundle: no default argument of the container / application classes builds a shared object', lambda ob: __import__('sa.props.common', fromlist=['fresh_defaults']).fresh_defaults(tree, ob, ['bp/util.py', 'bp/app/fragment.py', 'bp/agent.py', 'bp/encoding/bundle.py', 'bp/encoding/blocks.py']), floor=1)
     chk.run('C06.d', 'R-PAIR', 'one re-injection site; the fragment itself is withdrawn from delivery on every path; the synthesized bundle goes through the normal receive path', lambda ob: c06d(tree, ob), floor=3)
     chk.run('C06.f', 'R-ORDER', 'fragments and the re-injected bundle pass the receive gates: CRC gate on the whole failing set, unbounded seen-identity set, add before processing (= C08.b, C10.a)', lambda ob: (_c08b(tree, ob), c10a(tree, ob)), floor=8)
     chk.run('C06.g', 'sibling', 'checking a block CRC leaves the block as it was (blocks of the first fragment are copied into the reassembled bundle after they were checked) (= C08.c)', lambda ob: _c08c(tree, ob), floor=8)
